@@ -1,11 +1,11 @@
 (* C06  No avoidable waiting: work starts, proceeds and ends as early as the
    rules allow.  Statements only; proofs in Proofs/C02Proof.v,
-   Proofs/FinishComplete.v, Proofs/C06Proof.v.
-   PARTIAL: the idle-worker (maximality) clause is not proved yet; it is
-   searched by the oracle (harness/oracles.py c06, clause c). *)
+   Proofs/FinishComplete.v, Proofs/C06Proof.v, Proofs/C06Max.v.
+   PARTIAL: the idle-worker clause (c) is proved for tasks that need no
+   facility; for facility tasks it is searched by the oracle. *)
 From Coq Require Import List ZArith QArith Bool Arith.
 From PV Require Import Model.Types Model.Sim Model.Example Proofs.Base Proofs.RunLemmas Proofs.C01Proof
-  Proofs.C02Proof Proofs.FinishComplete Proofs.C06Proof.
+  Proofs.C02Proof Proofs.FinishComplete Proofs.C06Proof Proofs.C06Max.
 Import ListNotations.
 Open Scope nat_scope.
 
@@ -25,6 +25,21 @@ Theorem C06_automatic_task_starts_at_once : forall c o s t, t < nT c ->
   st (td (step_allocate c o s) t) = TWorking.
 Proof. exact C06_auto_never_waits. Qed.
 Print Assumptions C06_automatic_task_starts_at_once.
+
+(* (c) no worker stays FREE while a READY or WORKING task exists that this
+   worker is eligible for and that can still accept a resource: after
+   __allocate of a working step, for every candidate task t (READY or WORKING,
+   not automatic, needing no facility) and every worker w that was FREE and
+   received nothing, if w has the skill and belongs to a team of t then
+   can_add_resources(t, w) is False in the state reached *)
+Theorem C06_no_idle_eligible_worker : forall c o s t w,
+  In t (filter (fun t => is_ready (st (td s t)) || is_working (st (td s t))) (tasks c)) ->
+  t_auto c t = false -> t_needfac c t = false ->
+  In w (all_workers c) -> rst (wd s w) = RFree -> asg (wd (allocate c o s) w) = asg (wd s w) ->
+  has_wskill c w t = true -> w_targets c w t = true ->
+  can_add c (allocate c o s) t w None = false.
+Proof. exact no_idle_eligible_worker. Qed.
+Print Assumptions C06_no_idle_eligible_worker.
 
 (* (d) a task whose remaining work has reached zero and whose finish
    dependencies hold is FINISHED at the very next __update, independently of
